@@ -192,7 +192,8 @@ fn gen_name(rng: &mut Rng) -> String {
         9 => return String::new(),
         // several members in the SAME directory below the link (a per-directory shortcut must not let the
         // second one through after the first was refused)
-        10 => return format!("lnk/{}", rng.pick(&["x", "y", "z", "x2"])),
+        // ("b" is a file that already exists in the link's target: a path that is there before the extraction)
+        10 => return format!("lnk/{}", rng.pick(&["x", "y", "b", "x2", "b"])),
         11 => return format!("./lnk/a/{}", rng.pick(&["b", "c"])),
         12 => return "lnk".to_string(),
         _ => {}
